@@ -59,11 +59,23 @@ def seed_lints(prog, rng):
             i = rng.randrange(len(b))
             lit = rng.choice([E("int", INT, v=5), E("str", STR, v="lit"), E("list", ["List", INT], items=[E("int", INT, v=1), E("int", INT, v=2)]),
                               E("tuple", ["Tuple", [INT, STR]], items=[E("int", INT, v=1), E("str", STR, v="t")])])
-            if rng.random() < 0.15:
-                eff = [f for f in funs if not f["pure"] and not f["params"] and f["ret"] == INT]
-                if eff:
-                    lit = E("list", ["List", INT], False, False, items=[E("call", INT, False, False, fn=eff[0]["name"], args=[])])
-                    kinds.add("unused-literal-with-effect")
+            if rng.random() < 0.25:
+                # a literal whose evaluation has an effect somewhere inside (list item, tuple item, dict key or value,
+                # struct field, nested): removing it would drop the effect
+                ei = E("call", INT, False, False, fn="verif_eff_i", args=[], builtin=True)
+                es = E("call", STR, False, False, fn="verif_eff_s", args=[], builtin=True)
+                one = E("int", INT, v=1)
+                lit = rng.choice([
+                    E("list", ["List", INT], False, False, items=[one, ei]),
+                    E("tuple", ["Tuple", [INT, INT]], False, False, items=[ei, one]),
+                    E("dict", ["Dict", INT], False, False, items=[[es, one]]),
+                    E("dict", ["Dict", INT], False, False, items=[[E("str", STR, v="k"), ei]]),
+                    E("dict", ["Dict", INT], False, False, items=[[E("str", STR, v="a"), one], [es, one]]),
+                    E("list", ["List", ["List", INT]], False, False, items=[E("list", ["List", INT], False, False, items=[ei])]),
+                    E("tuple", ["Tuple", [STR, ["Tuple", [INT, INT]]]], False, False,
+                      items=[E("str", STR, v="t"), E("tuple", ["Tuple", [INT, INT]], False, False, items=[one, ei])]),
+                ])
+                kinds.add("unused-literal-with-effect")
             b.insert(i, {"k": "expr", "e": lit})
             kinds.add("unused-literal")
         # unnecessary let before a final expression
@@ -134,6 +146,8 @@ def build(case):
     if rng.random() < 0.3:
         src += "\nfun verif_tp<T, U>(x: T): T {\n  x\n}\n"
         kinds.add("unused-type-param")
+    if "unused-literal-with-effect" in kinds:
+        src += "\nfun verif_eff_i(): Int {\n  println(\"eff-i\")\n  1\n}\n\nfun verif_eff_s(): String {\n  println(\"eff-s\")\n  \"k\"\n}\n"
     src = head + src
     src, tag = perturb(src, case["layout"], rng)
     return src, kinds, tag
